@@ -667,10 +667,17 @@ impl Rasn {
             );
             if self.config.generate_from_impls {
                 let mut map = BTreeMap::new();
-                // `Tb` and `super::mb::Tb` can be the same imported type: count payload types by their own name
+                // `Tb` and `super::mb::Tb` can be the same imported type: count payload types by their own name,
+                // also where the name is a generic argument (`SequenceOf<super::mb::Tb>`)
                 let type_key = |ty: &TokenStream| {
-                    let ty = ty.to_string();
-                    ty.rsplit("::").next().unwrap_or(&ty).trim().to_owned()
+                    let mut key: String = ty.to_string().split_whitespace().collect();
+                    while let Some(at) = key.find("::") {
+                        let start = key[..at]
+                            .rfind(|c: char| !(c.is_alphanumeric() || c == '_'))
+                            .map_or(0, |i| i + 1);
+                        key.replace_range(start..at + 2, "");
+                    }
+                    key
                 };
 
                 let opts = choice
